@@ -241,6 +241,16 @@ func (c *Core) forward(bp BundleDescriptor) {
 		}
 	}
 
+	// Unsupported blocks which should be removed were removed after the bundle's reception. However, a bundle being
+	// retried is loaded from the store, which holds the bundle as it was received.
+	for i := len(bp.MustBundle().CanonicalBlocks) - 1; i >= 0; i-- {
+		if cb := &bp.MustBundle().CanonicalBlocks[i]; !bpv7.GetExtensionBlockManager().IsKnown(cb.TypeCode()) &&
+			cb.BlockControlFlags.Has(bpv7.RemoveBlock) {
+			bp.MustBundle().CanonicalBlocks = append(
+				bp.MustBundle().CanonicalBlocks[:i], bp.MustBundle().CanonicalBlocks[i+1:]...)
+		}
+	}
+
 	if pnBlock, err := bp.MustBundle().ExtensionBlock(bpv7.ExtBlockTypePreviousNodeBlock); err == nil {
 		// Replace the PreviousNodeBlock
 		prevEid := pnBlock.Value.(*bpv7.PreviousNodeBlock).Endpoint()
